@@ -39,7 +39,9 @@ def describe(meta, fname, t):
     low = re.findall(r"(?<![A-Za-z0-9_@.\"'`])(and|or|not)(?![A-Za-z0-9_(\"'`:])", text, re.I)
     if any(w != w.upper() for w in low):
         tags.append("lowercase-logical-operator")
-    if re.search(r"(?i)\b(FILTER|SORT)(\s|/\*.*?\*/|//[^\n\r\u2028\u2029]*[\n\r\u2028\u2029])*\(", text, re.S):
+    if kind == 7:
+        # decided by the model on the token lists: '(' directly after a FILTER / SORT token in the
+        # rendering and not in the canonical text
         tags.append("paren-after-clause-keyword")
     if c["family"] == "echo-escape" and re.search(r"\\[`\u00b4]$", c["canon"]):
         tags.append("trailing-backslash-in-backtick-string")
